@@ -294,6 +294,135 @@ def walk_all(fn: ast.AST) -> Iterator[ast.AST]:
     yield from ast.walk(fn)
 
 
+def _attr_chain_base(e: ast.AST) -> Optional[str]:
+    """`a.b.c` -> 'a' when the expression is a pure attribute chain over a name (at least one attribute)."""
+    if not isinstance(e, ast.Attribute):
+        return None
+    while isinstance(e, ast.Attribute):
+        e = e.value
+    return e.id if isinstance(e, ast.Name) else None
+
+
+def inline_attribute_copies(tree: ast.Module) -> int:
+    """Canonicalisation applied to every parsed module before indexing: a function-local name that is bound
+    exactly once, by a plain assignment, to a pure attribute chain of a name that is itself never re-bound in
+    the function (`_shape = self._shape`, `extent = tile_geobox.extent`) is replaced *at its uses* by a copy of
+    that chain (the assignment stays). A value reaching its use through such a local and the value used in
+    place are the same program as far as every rule here is concerned; without this pass rules that inspect a
+    call's argument expression would depend on whether the author introduced a temporary.
+    Conditions (all syntactic, per function, nested functions excluded from the binding count but not from
+    replacement): one binding of the local; it is not a parameter, global or nonlocal; no store to any
+    attribute of the chain's base anywhere in the function; every use is a load at a later line."""
+    n_inlined = 0
+    for fn in [n for n in ast.walk(tree) if isinstance(n, (ast.FunctionDef, ast.AsyncFunctionDef))]:
+        params = {a.arg for a in fn.args.posonlyargs + fn.args.args + fn.args.kwonlyargs} | ({fn.args.vararg.arg} if fn.args.vararg else set()) | ({fn.args.kwarg.arg} if fn.args.kwarg else set())
+        bindings: Dict[str, List[ast.AST]] = {}
+        declared: Set[str] = set()
+        attr_stores: Set[str] = set()
+        for n in ast.walk(fn):
+            if isinstance(n, (ast.Global, ast.Nonlocal)):
+                declared |= set(n.names)
+            if isinstance(n, ast.Name) and isinstance(n.ctx, (ast.Store, ast.Del)):
+                bindings.setdefault(n.id, []).append(n)
+            if isinstance(n, ast.Attribute) and isinstance(n.ctx, (ast.Store, ast.Del)):
+                d = dotted(n)
+                if d:
+                    attr_stores.add(d)
+            if isinstance(n, (ast.FunctionDef, ast.AsyncFunctionDef)) and n is not fn:
+                bindings.setdefault(n.name, []).append(n)
+            if isinstance(n, (ast.Import, ast.ImportFrom)):
+                for a in n.names:
+                    bindings.setdefault((a.asname or a.name).split(".")[0], []).append(n)
+        cands: Dict[str, Tuple[ast.Assign, ast.AST]] = {}
+        adjacent: Dict[str, Tuple[ast.Assign, ast.AST]] = {}
+        for n in ast.walk(fn):
+            if isinstance(n, ast.Assign) and len(n.targets) == 1 and isinstance(n.targets[0], ast.Name):
+                nm = n.targets[0].id
+                base = _attr_chain_base(n.value)
+                if base is None or nm in params or nm in declared or len(bindings.get(nm, [])) != 1:
+                    continue
+                chain = dotted(n.value) or ""
+                if base in declared or nm == base:
+                    continue
+                # a store to the same attribute path (or a prefix / extension of it) anywhere in the function blocks the
+                # general replacement; the adjacent single-use form below is still safe
+                if any(chain == st or chain.startswith(st + ".") or st.startswith(chain + ".") for st in attr_stores):
+                    nb0 = len(bindings.get(base, []))
+                    if (base in params and nb0 == 0) or (base not in params and nb0 <= 1):
+                        adjacent[nm] = (n, n.value)
+                    continue
+                nb = len(bindings.get(base, []))
+                if not ((base in params and nb == 0) or (base not in params and nb <= 1)):
+                    continue
+                cands[nm] = (n, n.value)
+        # `t = obj.attr` immediately followed by the one statement that uses `t` once, with nothing evaluated before
+        # the use that could change obj.attr (no call other than the calls the use is an argument of): the value
+        # used is obj.attr as of that statement - replace the use (this is what an "extract local" refactor produces)
+        if adjacent:
+            for blk_owner in ast.walk(fn):
+                for fld in ("body", "orelse", "finalbody", "handlers"):
+                    blk = getattr(blk_owner, fld, None)
+                    if not isinstance(blk, list):
+                        continue
+                    for i, st in enumerate(blk[:-1]):
+                        if not (isinstance(st, ast.Assign) and len(st.targets) == 1 and isinstance(st.targets[0], ast.Name) and st.targets[0].id in adjacent and adjacent[st.targets[0].id][0] is st):
+                            continue
+                        nm = st.targets[0].id
+                        nxt = blk[i + 1]
+                        uses_all = [x for x in ast.walk(fn) if isinstance(x, ast.Name) and x.id == nm and isinstance(x.ctx, ast.Load)]
+                        uses_nxt = [x for x in ast.walk(nxt) if isinstance(x, ast.Name) and x.id == nm and isinstance(x.ctx, ast.Load)]
+                        if len(uses_all) != 1 or len(uses_nxt) != 1 or isinstance(nxt, (ast.For, ast.While, ast.FunctionDef, ast.AsyncFunctionDef, ast.ClassDef, ast.With, ast.Try)):
+                            continue
+                        use = uses_nxt[0]
+                        pos = (use.lineno, use.col_offset)
+                        anc_calls = set()
+                        # calls that contain the use
+                        for c in ast.walk(nxt):
+                            if isinstance(c, ast.Call) and any(y is use for y in ast.walk(c)):
+                                anc_calls.add(id(c))
+                        safe = True
+                        for c in ast.walk(nxt):
+                            if isinstance(c, ast.Call) and (c.lineno, c.col_offset) < pos and id(c) not in anc_calls:
+                                safe = False
+                            if isinstance(c, ast.Call) and id(c) in anc_calls and dotted(c.func) is None:
+                                safe = False
+                            if isinstance(c, (ast.Lambda, ast.ListComp, ast.SetComp, ast.DictComp, ast.GeneratorExp)) and any(y is use for y in ast.walk(c)):
+                                safe = False
+                        if not safe:
+                            continue
+                        new = copy.deepcopy(adjacent[nm][1])
+                        for x in ast.walk(new):
+                            ast.copy_location(x, use)
+                        for par in ast.walk(nxt):
+                            for f2, val in ast.iter_fields(par):
+                                if val is use:
+                                    setattr(par, f2, new)
+                                elif isinstance(val, list):
+                                    for k, ch in enumerate(val):
+                                        if ch is use:
+                                            val[k] = new
+                        n_inlined += 1
+        if not cands:
+            continue
+        for n in ast.walk(fn):
+            for fld, val in ast.iter_fields(n):
+                items = val if isinstance(val, list) else [val]
+                for i, ch in enumerate(items):
+                    if isinstance(ch, ast.Name) and isinstance(ch.ctx, ast.Load) and ch.id in cands:
+                        asg, v = cands[ch.id]
+                        if getattr(ch, "lineno", 0) <= getattr(asg, "end_lineno", asg.lineno):
+                            continue
+                        new = copy.deepcopy(v)
+                        for x in ast.walk(new):
+                            ast.copy_location(x, ch)
+                        if isinstance(val, list):
+                            val[i] = new
+                        else:
+                            setattr(n, fld, new)
+                        n_inlined += 1
+    return n_inlined
+
+
 def set_parents(tree: ast.AST, mod: Optional[ModuleInfo] = None) -> None:
     for n in ast.walk(tree):
         for ch in ast.iter_child_nodes(n):
@@ -378,6 +507,8 @@ class Program:
                     tree = ast.parse(source, filename=str(f))
                 except SyntaxError as e:
                     raise AnalysisError(f"cannot parse {f}: {e}") from None
+            if not os.environ.get("ODCVERIF_NO_INLINE"):
+                inline_attribute_copies(tree)
             mi = ModuleInfo(name, f, source, tree)
             set_parents(tree, mi)
             self.modules[name] = mi
